@@ -58,6 +58,7 @@ type player struct {
 	events  chan parkEvent
 	parked  map[string]string // actor -> point where it is parked now
 	free    bool              // after the play: nobody parks any more
+	passed  map[string][]string
 	log     []string
 }
 
@@ -75,11 +76,14 @@ func gid() int64 {
 func (p *player) handler(point string, args ...interface{}) {
 	NoteHook(point)
 	p.mu.Lock()
+	g := gid()
+	if a, known := p.byGid[g]; known {
+		p.passed[a] = append(p.passed[a], point) // every hook point an actor passes, gated or not, parked or free
+	}
 	if p.free || !p.gated[point] {
 		p.mu.Unlock()
 		return
 	}
-	g := gid()
 	actor, ok := p.byGid[g]
 	if !ok {
 		for pre, name := range p.bg {
@@ -151,7 +155,7 @@ func init() {
 
 func (c *Ctx) play(sp *playSpec) Obs {
 	p := &player{gated: map[string]bool{}, byGid: map[int64]string{}, bg: sp.Background, release: map[string]chan struct{}{},
-		events: make(chan parkEvent, 1024), parked: map[string]string{}}
+		events: make(chan parkEvent, 1024), parked: map[string]string{}, passed: map[string][]string{}}
 	for _, g := range sp.Gated {
 		p.gated[g] = true
 	}
@@ -321,5 +325,11 @@ loop:
 	for a, o := range finished {
 		fin[a] = o
 	}
-	return Obs{"steps": steps, "drift": drift, "finished": fin, "stuck": stuck}
+	p.mu.Lock()
+	passed := map[string][]string{}
+	for a, pts := range p.passed {
+		passed[a] = append([]string{}, pts...)
+	}
+	p.mu.Unlock()
+	return Obs{"steps": steps, "drift": drift, "finished": fin, "stuck": stuck, "passed": passed}
 }
